@@ -1,5 +1,6 @@
 import Genq.Props.C10
 open Genq.Conv
+open Genq
 #print axioms C10_precedence
 #print axioms C10_no_leak
 #print axioms C10_bind_replaces_whole_type
@@ -7,3 +8,5 @@ open Genq.Conv
 #print axioms C10_named_type_wrapper
 #print axioms C10_pointer_false_never_pointer
 #print axioms C10_struct_references_default
+#print axioms C10_convertType_tie
+#print axioms C10_directive_merge_tie
